@@ -153,6 +153,37 @@ class Ctx:
             f"{len(acts)} actions covered, {st['wall_s']}s")
         return st
 
+    def apalache(self, module, inv, init="Init", next_="Next", length=0, cinit=None, timeout=900, expect="ok"):
+        """Stage (A'), symbolic: `apalache-mc check` of specs/<module>.tla (typed module). expect = "ok" (no error up
+        to `length`) or "cex" (a counterexample must exist: must-refute variant). Like stage (A) a failure is a tool
+        error (the model is ours), never a VIOLATION. Records the obligation in mc_stats."""
+        out = self.path(f"apa-{module}-{inv}-{int(time.time()*1000)%100000000}")
+        cmd = ["apalache-mc", "check", f"--init={init}", f"--next={next_}", f"--inv={inv}", f"--length={length}",
+               f"--out-dir={out}"]
+        if cinit:
+            cmd.append(f"--cinit={cinit}")
+        cmd.append(module + ".tla")
+        t = time.time()
+        e = dict(self.env)
+        e.setdefault("JVM_ARGS", "-Xmx6g")
+        try:
+            p = subprocess.run(cmd, cwd=SPECS, env=e, stdout=subprocess.PIPE, stderr=subprocess.STDOUT, timeout=timeout,
+                               text=True, errors="replace")
+            rc, text = p.returncode, p.stdout
+        except subprocess.TimeoutExpired:
+            shutil.rmtree(out, ignore_errors=True)
+            raise ToolError(f"Apalache timeout after {timeout}s on {module} {init}/{next_}/{inv} length {length}")
+        shutil.rmtree(out, ignore_errors=True)
+        got = "ok" if (rc == 0 and "EXITCODE: OK" in text) else ("cex" if rc == 12 else "error")
+        if got != expect:
+            raise ToolError(f"stage A' (Apalache): {module} init={init} next={next_} inv={inv} length={length}: "
+                            f"expected {expect}, got {got} rc={rc}:\n" + _tail(text, 25))
+        st = {"module": module, "cfg": f"apalache init={init} next={next_} inv={inv} length={length} -> {got}",
+              "states": 0, "transitions": 0, "actions": {}, "wall_s": round(time.time() - t, 1), "symbolic": True}
+        self.mc_stats.append(st)
+        log(f"(A') Apalache {module}: {init} /\\ {next_}^{length} => {inv}: {got} as expected, {st['wall_s']}s")
+        return st
+
     def gen(self, module, cfg=None, env=None, timeout=600, cases_name="cases.ndjson", workers=1, simulate=None,
             heap="4g"):
         """Stage (B): TLC writes cases to $CASES (ndJsonSerialize) and/or prints `CASE <json>` lines."""
